@@ -12,7 +12,7 @@ RC = {
  4: "RC4 proxy.go proxyOwnKeys dereferences a missing element of the trap result (array-like with a hole): Go nil-pointer panic escapes to the host",
  5: "RC5 (bare target, no proxy involved; property C04's domain) ordinary [[DefineOwnProperty]] lets {writable:..} / {get|set:undefined} change the kind of a non-configurable property",
  6: "RC6 the defineProperty trap is handed the caller's descriptor object instead of FromPropertyDescriptor(Desc): a forwarding handler re-reads getter-backed descriptor fields",
- 7: "RC7 (bare exotic target deviates, no proxy defect; property C04/C07's domain: array / function / arguments objects mishandle setter-less accessors, enumerable:false on mapped arguments, isSealed) - the generic path through the proxy and the specialised bare path disagree",
+ 7: "RC7 (bare exotic target deviates, no proxy defect; property C04/C07's domain: array / function / arguments / String-wrapper objects mishandle setter-less accessors, enumerable:false on mapped arguments, isSealed, integer keys beyond a String wrapper's length) - the generic path through the proxy and the specialised bare path disagree",
  8: "RC8 (bare typed array, no proxy involved; property C17's domain) defineProperty without a value on an integer-indexed element: Go nil-pointer panic",
 }
 rules = [
